@@ -194,7 +194,7 @@ pub fn property() -> Property {
             Box::new(Sub {
                 name: "conversion",
                 rule: "r x n binary matrices, 1 <= r <= n <= 12 (thorough 40), by class: uniform at three densities; full rank by construction (row-mixed [I|A] with permuted columns); rank deficient by construction (row = sum of two others, duplicated row, zero row); pivots at the far right behind leading zero/duplicate columns; zero and duplicate columns; (near-)identity incl. square. Oracle: own GF(2) rank decides Err(NotFullRank) vs Ok, never a panic; Ok result has the same dimensions, the same multiset of columns, an invertible last-r-column block (own rank) and is accepted by Encoder::from_h. Non-trivial = full rank input whose last r columns are not already invertible",
-                cases: |t| t.pick(50_000, 1_000_000),
+                cases: |t| t.pick(1_000_000, 20_000_000),
                 strategy: |t| strategy(t.pick(12, 40)),
                 check,
                 health: &[("rank-deficient", 0.25), ("pivots-not-already-last", 0.25), ("square", 0.05)],
